@@ -456,6 +456,7 @@ func (f *Frame) havocItem(env *SpecEnv, st *State, con *Contract, callee *ssa.Fu
 		el := t.Underlying().(*types.Slice).Elem()
 		k := c.so.heapArr(el)
 		fresh := c.declare(hn+"_"+k.Name, fmt.Sprintf("(Array %s %s)", c.so.idxSort(), c.so.sortOf(el)))
+		c.byteHeapAxiom(k, fresh, true)
 		old := fmt.Sprintf("(select %s (s_ref %s))", st.get(k), sv.S)
 		fact := fmt.Sprintf("(forall ((i!h Int)) (! (=> (or (< i!h (+ (s_off %s) %s)) (>= i!h (+ (s_off %s) %s))) (= (select %s i!h) (select %s i!h))) :pattern ((select %s i!h))))",
 			sv.S, lo, sv.S, hi, fresh, old, fresh)
@@ -493,6 +494,7 @@ func (f *Frame) havocItem(env *SpecEnv, st *State, con *Contract, callee *ssa.Fu
 		el := t.Underlying().(*types.Slice).Elem()
 		k := c.so.heapArr(el)
 		fresh := c.declare(hn+"_"+k.Name, fmt.Sprintf("(Array %s %s)", c.so.idxSort(), c.so.sortOf(el)))
+		c.byteHeapAxiom(k, fresh, true)
 		return st.set(k, fmt.Sprintf("(store %s (s_ref %s) %s)", st.get(k), sv.S, fresh))
 	case kind == "obj":
 		ex, perr := parseSpec(des)
@@ -520,6 +522,7 @@ func (f *Frame) havocItem(env *SpecEnv, st *State, con *Contract, callee *ssa.Fu
 		if at, ok := t.Underlying().(*types.Array); ok {
 			k := c.so.heapArr(at.Elem())
 			fresh := c.declare(hn+"_"+k.Name, fmt.Sprintf("(Array %s %s)", c.so.idxSort(), c.so.sortOf(at.Elem())))
+			c.byteHeapAxiom(k, fresh, true)
 			return ns.set(k, fmt.Sprintf("(store %s %s %s)", ns.get(k), p.Root, fresh))
 		}
 		k := c.so.heapObj(t)
